@@ -284,6 +284,17 @@ class _World:
             tgt = self._functions_symbol(cn, M)
             if tgt and tgt in self.prim.classes:
                 return ("table", (FUNCS, tgt))
+            # a helper of the same class / module that merely returns the callable: follow its single return
+            helper = None
+            if isinstance(e.func, ast.Attribute) and isinstance(e.func.value, ast.Name) and e.func.value.id == "self":
+                cls = M.enclosing_cls(at)
+                helper = methods(cls).get(e.func.attr) if cls is not None else None
+            elif isinstance(e.func, ast.Name):
+                helper = next((s for s in M.mod.tree.body if isinstance(s, ast.FunctionDef) and s.name == e.func.id), None)
+            if helper is not None:
+                rets = [r for r in walk_local(helper) if isinstance(r, ast.Return) and r.value is not None]
+                if len(rets) == 1:
+                    return self.resolve(rets[0].value, M, rets[0], depth + 1)
             return ("unknown", u(e))
         if isinstance(e, ast.Lambda):
             return ("local", e, M)
